@@ -118,7 +118,7 @@ end nested
 
 theorem countMsg_lok {cfg : Cfg} {s : State} (h : LOK s) (t : Int) : LOK (countMsg cfg s t) := by
   unfold countMsg; split
-  · exact h
+  · exact lok_same h rfl
   · exact lok_same h rfl
 
 theorem forward_lok (cfg : Cfg) : ∀ n, LOKfwd (forward cfg n)
